@@ -6,6 +6,7 @@ import (
 	"go/types"
 	"math/big"
 	"regexp"
+	"sort"
 	"strconv"
 	"strings"
 )
@@ -145,7 +146,7 @@ func (x *Exec) loopFrame(s *State, lh *loopHavoc, run func(d *State)) {
 		return
 	}
 	d := s.clone()
-	d.wrefs = map[string]map[string]bool{}
+	d.wrefs = map[string]map[string]*pcNode{}
 	var allocs []string
 	d.allocs = &allocs
 	d.written = map[string]bool{}
@@ -166,28 +167,42 @@ func (x *Exec) loopFrame(s *State, lh *loopHavoc, run func(d *State)) {
 	for _, a := range allocs {
 		fresh[a] = true
 	}
+	a0 := x.eng.declare("alloc@0", sInt)
 	for _, name := range sortedKeys(lh.pre) {
 		set := d.wrefs[name]
-		if set["*"] {
+		if _, unknown := set["*"]; unknown {
 			continue
 		}
 		var refs []string
 		ok := true
-		for _, r := range sortedStrings(set) {
+		bound := lh.preAlloc // references below this bound (and not written) keep their contents
+		var rs []string
+		for r := range set {
+			rs = append(rs, r)
+		}
+		sort.Strings(rs)
+		for _, r := range rs {
 			if fresh[r] {
 				continue
 			}
-			if !invariantTerm(r, lh.ctr) {
-				ok = false
-				break
+			if invariantTerm(r, lh.ctr) {
+				refs = append(refs, r)
+				continue
 			}
-			refs = append(refs, r)
+			// a varying reference: acceptable if it provably did not exist at function entry
+			// (e.g. a slice built by this function and grown by append in the loop)
+			if x.eng.quickValid(set[r], mkCmp(">=", r, a0)) {
+				bound = a0
+				continue
+			}
+			ok = false
+			break
 		}
 		if !ok {
 			continue
 		}
 		cur := s.heap[name]
-		conds := []string{mkCmp("<", "r!fr", lh.preAlloc)}
+		conds := []string{mkCmp("<", "r!fr", bound)}
 		for _, r := range refs {
 			conds = append(conds, mkNot(mkEq("r!fr", r)))
 		}
@@ -255,6 +270,26 @@ func (x *Exec) havocLoop(s *State, written map[string]bool, wrLocal map[types.Ob
 	return lh
 }
 
+// simplifyLocals replaces the offset of havocked slice variables by the literal 0 when the loop
+// invariants entail it (keeps quantified reasoning over append-built slices free of offset arithmetic).
+func (x *Exec) simplifyLocals(s *State, wrLocal map[types.Object]bool) {
+	var objs []types.Object
+	for o := range wrLocal {
+		objs = append(objs, o)
+	}
+	sortObjs(objs)
+	for _, o := range objs {
+		v, ok := s.env[o]
+		if !ok || v.K != KSlice || v.Off == "0" {
+			continue
+		}
+		if x.eng.quickValid(s.pc, mkEq(v.Off, "0")) {
+			v.Off = "0"
+			s.env[o] = v
+		}
+	}
+}
+
 func sortObjs(objs []types.Object) {
 	for i := 1; i < len(objs); i++ {
 		for j := i; j > 0 && (objs[j].Pos() < objs[j-1].Pos() || (objs[j].Pos() == objs[j-1].Pos() && objs[j].Name() < objs[j-1].Name())); j-- {
@@ -313,6 +348,9 @@ func (x *Exec) execFor(s *State, st *ast.ForStmt, label string) *State {
 	written, wrLocal := x.dryRun(s, dry)
 	lh := x.havocLoop(s, written, wrLocal)
 	x.assumeInvs(s, invs, bodyPos, nil)
+	if len(invs) > 0 {
+		x.simplifyLocals(s, wrLocal)
+	}
 	x.loopFrame(s, lh, dry)
 	anc := s.pc
 	tg := &target{label: label, isLoop: true}
